@@ -40,7 +40,7 @@ func (c ctor) String() string {
 type op struct {
 	t, src     int // target / source instance of the history's pool of live containers
 	code, mode string
-	k          key
+	k, k2      key // k2: EQ only (the second entry)
 	v          int64
 	n          int
 	rel        bool // SM only: n is an offset from the target's Size() at the moment of the call (resolved when executed)
@@ -58,7 +58,7 @@ type tdesc struct {
 	repaired bool // a known finding of this type no longer reproduces: compare with the repaired descriptor
 }
 
-var baseOps = []string{"TS", "P:L", "P:FL", "P:FF", "G", "CK", "FK", "LK", "FV", "LV", "R", "RF", "RL", "C", "SZ", "IE", "IF", "SM", "SO"}
+var baseOps = []string{"ESV", "EQ", "TS", "P:L", "P:FL", "P:FF", "G", "CK", "FK", "LK", "FV", "LV", "R", "RF", "RL", "C", "SZ", "IE", "IF", "SM", "SO"}
 var addOps = []string{"A:L", "A:FL", "A:FF"}
 var setOps = []string{"TS", "P:L", "P:FL", "P:FF", "CK", "FK", "LK", "R", "RF", "RL", "C", "SZ", "IE", "IF", "SM", "SO"}
 
@@ -72,18 +72,18 @@ func cat(xs ...[]string) []string {
 
 var types = []*tdesc{
 	{name: "LinkedMap", kkind: 'o', vkind: 'o', hasCtor: true, ops: baseOps, mk: newLinkedMap},
-	{name: "IntKeyLinkedMap", kkind: 'i', vkind: 'o', hasCtor: true, ops: cat(baseOps, []string{"GL", "CV"}), mk: newIntKeyLinkedMap},
+	{name: "IntKeyLinkedMap", kkind: 'i', vkind: 'o', hasCtor: true, ops: cat(baseOps, []string{"GL", "CV", "VI", "TF", "TKS", "ENF"}), mk: newIntKeyLinkedMap},
 	{name: "LongKeyLinkedMap", kkind: 'l', vkind: 'o', hasCtor: true, ops: baseOps, mk: newLongKeyLinkedMap},
 	{name: "StringKeyLinkedMap", kkind: 's', vkind: 'o', ops: baseOps, mk: newStringKeyLinkedMap},
 	{name: "IntIntLinkedMap", kkind: 'i', vkind: 'i', ops: cat(baseOps, addOps, []string{"AN", "CV"}), mk: newIntIntLinkedMap},
 	{name: "IntFloatLinkedMap", kkind: 'i', vkind: 'f', ops: cat(baseOps, addOps, []string{"CV"}), mk: newIntFloatLinkedMap},
 	{name: "LongFloatLinkedMap", kkind: 'l', vkind: 'f', ops: cat(baseOps, addOps, []string{"CV"}), mk: newLongFloatLinkedMap},
-	{name: "LongLongLinkedMap", kkind: 'l', vkind: 'l', hasCtor: true, ops: cat(baseOps, addOps, []string{"CV", "SN"}), mk: newLongLongLinkedMap},
-	{name: "StringIntLinkedMap", kkind: 's', vkind: 'i', ops: cat(baseOps, addOps, []string{"CV", "SN"}), mk: newStringIntLinkedMap},
-	{name: "StringLongLinkedMap", kkind: 's', vkind: 'l', ops: cat(baseOps, addOps, []string{"CV", "SN"}), mk: newStringLongLinkedMap},
+	{name: "LongLongLinkedMap", kkind: 'l', vkind: 'l', hasCtor: true, ops: cat(baseOps, addOps, []string{"CV", "SN", "ENF"}), mk: newLongLongLinkedMap},
+	{name: "StringIntLinkedMap", kkind: 's', vkind: 'i', ops: cat(baseOps, addOps, []string{"CV", "SN", "ENF"}), mk: newStringIntLinkedMap},
+	{name: "StringLongLinkedMap", kkind: 's', vkind: 'l', ops: cat(baseOps, addOps, []string{"CV", "SN", "ENF"}), mk: newStringLongLinkedMap},
 	{name: "LinkedSet", kkind: 'o', vkind: 'u', ops: setOps, mk: newLinkedSet},
 	{name: "IntLinkedSet", kkind: 'i', vkind: 'u', ops: setOps, mk: newIntLinkedSet},
-	{name: "StringLinkedSet", kkind: 's', vkind: 'u', ops: setOps, mk: newStringLinkedSet},
+	{name: "StringLinkedSet", kkind: 's', vkind: 'u', ops: cat(setOps, []string{"UP"}), mk: newStringLinkedSet},
 }
 
 func init() {
@@ -155,6 +155,20 @@ func (t *tdesc) method(o op) string {
 		return "Sort"
 	case "TS":
 		return "ToString"
+	case "TF":
+		return "ToFormatString"
+	case "ESV":
+		return "Entry.SetValue"
+	case "EQ":
+		return "Entry.Equals"
+	case "VI":
+		return "ValueIterator"
+	case "ENF":
+		return "NewEnumer"
+	case "TKS":
+		return "ToKeySet"
+	case "UP":
+		return "Unipoint"
 	case "TOF":
 		return "ToObject"
 	case "KAW":
@@ -186,7 +200,13 @@ func (t *tdesc) line0(o op) string {
 		return fmt.Sprintf("TOF %d", o.src)
 	case "KAW", "GKS":
 		return "KS"
-	case "EO", "TS", "SN": // SN: SetNullValue only changes how "absent" is shown; the model sees a Size query
+	case "ESV":
+		return fmt.Sprintf("ESV %s %s", t.keyTok(o.k), valTok(o.v))
+	case "EQ":
+		return fmt.Sprintf("EQ %s %s", t.keyTok(o.k), t.keyTok(o.k2))
+	case "UP", "ENF":
+		return o.code + " " + t.keyTok(o.k)
+	case "EO", "SN": // SN: SetNullValue only changes how "absent" is shown; the model sees a Size query
 		return "SZ"
 	case "ED":
 		return "ES"
@@ -252,11 +272,26 @@ func parseLine(t *tdesc, l string) (op, bool) {
 		}
 		o.k = pk(w[1])
 		o.v, _ = strconv.ParseInt(w[2], 10, 64)
-	case "G", "GL", "CK", "R":
+	case "G", "GL", "CK", "R", "UP", "ENF":
 		if len(w) != 2 {
 			return o, false
 		}
 		o.k = pk(w[1])
+	case "ESV":
+		if len(w) != 3 {
+			return o, false
+		}
+		o.k = pk(w[1])
+		if w[2] == "nil" {
+			o.v = nilV
+		} else {
+			o.v, _ = strconv.ParseInt(w[2], 10, 64)
+		}
+	case "EQ":
+		if len(w) != 3 {
+			return o, false
+		}
+		o.k, o.k2 = pk(w[1]), pk(w[2])
 	case "CV", "SN":
 		o.v, _ = strconv.ParseInt(w[1], 10, 64)
 	case "SM":
@@ -269,7 +304,7 @@ func parseLine(t *tdesc, l string) (op, bool) {
 
 func mutating(code string) bool {
 	switch code {
-	case "P", "A", "AN", "GL", "R", "RF", "RL", "C", "SO", "SM", "TOF", "KAW", "GKS":
+	case "P", "A", "AN", "GL", "R", "RF", "RL", "C", "SO", "SM", "TOF", "KAW", "GKS", "ESV", "UP":
 		return true // (KAW / GKS do not mutate; they are followed by a dump because the caller modifies the returned slice / set)
 	}
 	return false
@@ -352,6 +387,11 @@ func (t *tdesc) expect(o op, model string, prev []pairS, none string) string {
 			return noneKey
 		}
 		return model
+	case "TS", "TF": // the model renders the text; a float32 value is printed by Go's own %f
+		if txt, ok := modelText(model); ok {
+			return textTok(txt)
+		}
+		return "?model-text:" + vh.Clip(model, 60)
 	}
 	return model
 }
@@ -396,7 +436,7 @@ type histRes struct {
 // replayLine: the harness-side form of an op (KAW / GKS / EO / ED are not driver lines)
 func (t *tdesc) replayLine(o op) string {
 	switch o.code {
-	case "KAW", "GKS", "EO", "ED", "TS":
+	case "KAW", "GKS", "EO", "ED":
 		return fmt.Sprintf("@%d %s", o.t, o.code)
 	case "SN":
 		return fmt.Sprintf("@%d SN %d", o.t, o.v)
@@ -854,7 +894,7 @@ func genVal(t *tdesc, r *vh.Rng) int64 {
 	return r.Range(-50, 50)
 }
 
-var weights = map[string]int{"TS": 2, "TOF": 5, "KAW": 2, "GKS": 2, "EOB": 3, "P:L": 18, "P:FL": 8, "P:FF": 8, "A:L": 5, "A:FL": 3, "A:FF": 3, "AN": 3, "G": 7, "GL": 5, "CK": 5, "CV": 3,
+var weights = map[string]int{"ESV": 6, "EQ": 3, "VI": 2, "TF": 2, "TKS": 1, "ENF": 3, "UP": 8, "TS": 2, "TOF": 5, "KAW": 2, "GKS": 2, "EOB": 3, "P:L": 18, "P:FL": 8, "P:FF": 8, "A:L": 5, "A:FL": 3, "A:FF": 3, "AN": 3, "G": 7, "GL": 5, "CK": 5, "CV": 3,
 	"FK": 2, "LK": 2, "FV": 2, "LV": 2, "R": 9, "RF": 4, "RL": 4, "C": 1, "SZ": 2, "IE": 1, "IF": 2, "SM": 3, "SN": 2, "SO": 2}
 
 // baseOnly: the single-object operations among the available ones
@@ -975,8 +1015,23 @@ func genOps(t *tdesc, r *vh.Rng, avail []string, n int, nInst int) []op {
 			}
 		case "SO":
 			o.asc = r.Bool()
+		case "ESV", "EQ", "ENF": // mostly on keys that were put (an absent key has no entry object)
+			if ks := putK[o.t]; len(ks) > 0 && r.Chance(80) {
+				o.k = ks[r.Intn(len(ks))]
+			}
+			o.k2 = o.k
+			if r.Chance(70) {
+				o.k2 = pool[r.Intn(len(pool))]
+				if ks := putK[o.t]; len(ks) > 0 && r.Chance(80) {
+					o.k2 = ks[r.Intn(len(ks))]
+				}
+			}
+			if o.code == "ESV" {
+				o.v = genVal(t, r)
+				vals = append(vals, o.v)
+			}
 		}
-		if o.code == "P" || o.code == "A" || o.code == "AN" {
+		if o.code == "P" || o.code == "A" || o.code == "AN" || o.code == "UP" {
 			putK[o.t] = append(putK[o.t], o.k)
 		}
 		ops = append(ops, o)
@@ -1324,7 +1379,7 @@ func probe(t *tdesc, rep *vh.Report) probeOut {
 		}
 	}
 	for _, code := range t.ops {
-		o := op{code: code, k: k(1), v: 10, n: 2, asc: true}
+		o := op{code: code, k: k(1), k2: k(2), v: 10, n: 2, asc: true}
 		if i := strings.IndexByte(code, ':'); i >= 0 {
 			o.code, o.mode = code[:i], code[i+1:]
 		}
@@ -1425,6 +1480,8 @@ func main() {
 		return
 	}
 
+	setryProbe(rep)
+	staleEntryProbe(rep)
 	knownReplays(rep) // first: a finding that no longer reproduces switches its type to the repaired descriptor
 
 	perType := 160
